@@ -19,7 +19,9 @@ PROPERTY = "C05"
 LEVEL = "exploration"
 
 ELEMENTS = [1, 6, 8, 17, 26, 92]
-SITES = np.array([[0.0, 0.0, 0.0], [1.1, 0.0, 0.0], [-1.1, 0.0, 0.0], [0.0, 1.5, 0.0], [0.37, -0.81, 1.23], [-1.9, 1.3, -0.7], [2.3, 2.1, 1.7]])
+SITES = np.array([[0.0, 0.0, 0.0], [1.1, 0.0, 0.0], [-1.1, 0.0, 0.0], [0.0, 1.5, 0.0], [0.37, -0.81, 1.23], [-1.9, 1.3, -0.7], [2.3, 2.1, 1.7],
+                  [0.0, 0.0, 0.0], [1.1, 1e-4, 0.0]])   # the last two coincide (nearly) with sites 0 and 1: only used for the mixed-site configurations
+N_PLAIN_SITES = 7
 REL = 1e-4  # float32 kernel: r^2 cancellation near the table end; probe worst 7e-6, wrong index/weight >= 1e-2
 
 
@@ -327,10 +329,18 @@ def run(ctx):
     configs = []
     idx = 0
     for k in range(1, kmax + 1):
-        for sites_idx in itertools.combinations(range(len(SITES)), k):
+        for sites_idx in itertools.combinations(range(N_PLAIN_SITES), k):
             for zs in itertools.product(ELEMENTS, repeat=k):
                 if k == 4 and not ctx.thorough:
                     continue
+                configs.append((idx, (sites_idx, zs)))
+                idx += 1
+    # coincident and nearly coincident atoms (mixed / split sites: two elements sharing one position): site 7 = site 0, site 8 = site 1 + 1e-4 A
+    for k in (2, 3):
+        for sites_idx in ((0, 7), (1, 8), (0, 7, 3), (0, 1, 8), (4, 0, 7)):
+            if len(sites_idx) != k:
+                continue
+            for zs in itertools.product(ELEMENTS[:4] if k == 3 else ELEMENTS, repeat=k):
                 configs.append((idx, (sites_idx, zs)))
                 idx += 1
     # error handling of the constructor
